@@ -1562,12 +1562,15 @@ def run_ih_history(bid, hist, sink_ops, rp):
                 elif not raised and valid:
                     new_cands.append(c + [row])
             if not new_cands:
+                # after a REJECTED extend the index is left half-grown (recorded defect class `rejected-extend`): whatever a later append does
+                # wrong on that object has the same root cause and is keyed with it
+                after_x = 'X' in hist[:step]
                 if raised:
-                    sink_ops.fail(K(f'append-of-valid-label-raises:{type(o[1]).__name__}'), f'append({row!r}) raises {o[1]!r}; base {bid}, history {hist[:step + 1]!r}, rows {c0!r}', rp)
+                    sink_ops.fail(hist_key('ih', hist[:step]) if after_x else K(f'append-of-valid-label-raises:{type(o[1]).__name__}'), f'append({row!r}) raises {o[1]!r}; base {bid}, history {hist[:step + 1]!r}, rows {c0!r}', rp)
                 else:
                     why = 'held-label' if not all_distinct(c0 + [row]) else 'non-tree-label'
                     shown = obs(lambda: list(ix))
-                    sink_ops.fail(K('append-under-non-last-parent-accepted' if op in 'PF' else f'append-of-{why}-accepted'),
+                    sink_ops.fail(hist_key('ih', hist[:step]) if after_x else K('append-under-non-last-parent-accepted' if op in 'PF' else f'append-of-{why}-accepted'),
                                   f'append({row!r}) returned normally on rows {c0!r} (the result is not a tree in the given order / repeats a label); the index now lists {shown[1]!r}', rp)
                 return None
         else:
